@@ -1320,19 +1320,27 @@ func (s *spec) expectGet(act *action, a *sattr) (val, bool) {
 }
 
 // stored: how many positions the instance stores: the positional values as given, or — for a named construction and for a
-// non-empty positional one on a parameterized type, which goes through makeValueHash — up to the last position whose value is
-// not its attribute's default, never fewer than the required ones
+// non-empty positional one on a parameterized type, which goes through makeValueHash and PositionalFromHash — every position
+// filled (given value or implicit one) and then trimmed from the end while the value is the attribute's DECLARED value
+// (attribute.Default: `a.value != nil && a.value.Equals(v)`; a given_or_derived attribute whose type accepts undef without
+// being an Optional has no such value), never below the required count
 func (s *spec) stored(act *action) int {
 	pos := s.pos[act.t]
 	if act.op == "newpos" && (len(act.vals) == 0 || len(s.tparams[act.t]) == 0) {
 		return len(act.vals)
 	}
-	n := s.req[act.t]
-	for i, p := range pos {
-		v, given := s.givenAt(act, i)
-		if given && !(p.hasDflt && p.dv.String() == v.String()) && i+1 > n {
-			n = i + 1
+	n := len(pos)
+	for n > s.req[act.t] {
+		p := pos[n-1]
+		v, given := s.givenAt(act, n-1)
+		if !given {
+			v = p.dv
 		}
+		declared := (p.dflt != nil && p.dflt.String() == v.String()) || (p.dflt == nil && p.ety.k == "opt" && v.k == "u")
+		if !declared {
+			break
+		}
+		n--
 	}
 	return n
 }
